@@ -175,6 +175,8 @@ func newC12Env() *c12Env {
 			io.WriteString(c, "HTTP/1.1 403 Forbidden\r\nContent-Length: 0\r\nX-Peer: R\r\n\r\n")
 		case strings.HasPrefix(req.Target, "reject407"):
 			io.WriteString(c, "HTTP/1.1 407 Proxy Authentication Required\r\nProxy-Authenticate: Basic realm=\"R\"\r\nContent-Length: 0\r\n\r\n")
+		case strings.HasPrefix(req.Target, "reject302"):
+			io.WriteString(c, "HTTP/1.1 302 Found\r\nLocation: http://login.example/portal\r\nContent-Length: 5\r\nX-Peer: R\r\n\r\nlogin")
 		case strings.HasPrefix(req.Target, "reject502"):
 			io.WriteString(c, "HTTP/1.1 502 Bad Gateway\r\nContent-Length: 0\r\n\r\n")
 		default:
@@ -346,6 +348,8 @@ func (env *c12Env) faultCase(c c12Case, k int, rejf *fwd) map[string]any {
 		host = "reject407.test"
 	case "proxy_connect_502":
 		host = "reject502.test"
+	case "proxy_connect_302":
+		host = "reject302.test"
 	}
 	rst := ""
 	if strings.HasPrefix(c.F, "rst_") {
